@@ -286,6 +286,8 @@ package gtab
 // Ligature substitution: the matched components are at matchPos (ascending,
 // starting at a), the glyphs skipped by the lookup flags at skipPos; together
 // they are exactly the positions a..p-1, and the two lists are separate arrays.
+// the ligature rule of GSUB lookup type 4 without a glyph filter: the components after the first are the glyphs at the consecutive positions a+1... inside [a,b)
+//@ pred lm(in []glyph.ID, seq []glyph.Info, a int, b int) = a + 1 + len(in) <= b && forall i8 int :: 0 <= i8 && i8 < len(in) ==> seq[a+1+i8].GID == in[i8]
 //@ func (l *Gsub4_1) apply(ctx *Context, a int, b int) (next int)   props: C06 C07
 //@   opt assume_make=1
 //@   requires l != nil && ctx != nil && 0 <= a && a < b && b <= len(ctx.seq) && stackinv(ctx) && inside(ctx, b) && keepOK(ctx) && llOK(ctx)
@@ -295,12 +297,24 @@ package gtab
 //@   ensures next >= -1 && next <= len(ctx.seq) && stackinv(ctx) && len(ctx.seq) <= 1099511627776
 //@   ensures next < 0 ==> len(ctx.stack) == old(len(ctx.stack)) && len(ctx.seq) == old(len(ctx.seq))
 //@   ensures next >= 0 ==> next > a
+// GSUB type 4 (OpenType: 'the ligature glyph replaces the component glyphs'): a match puts lig.Out at a, removes len(lig.In) glyphs, leaves everything before a alone and moves the tail down unchanged
+//@   return_assert next >= 0 ==> ctx.seq[a].GID == lig.Out && len(ctx.seq) == old(len(ctx.seq)) - len(lig.In) && next == a + 1 + len(skipPos)
+//@   return_assert next >= 0 ==> forall q int :: 0 <= q && q < a ==> ctx.seq[q] == old(ctx.seq[q])
+//@   return_assert next >= 0 ==> forall q int :: next <= q && q < len(ctx.seq) ==> ctx.seq[q] == old(ctx.seq[q + len(lig.In)])
+// without a glyph filter: the FIRST ligature of the set whose components are the next glyphs is applied; no match exactly if there is none; a failed match changes nothing
+//@   return_assert NK && next >= 0 ==> next == a + 1 && old(lm(lig.In, ctx.seq, a, b)) && 0 <= j && j < len(ligSet) && lig.Out == ligSet[j].Out && forall j9 int :: 0 <= j9 && j9 < j ==> !old(lm(ligSet[j9].In, ctx.seq, a, b))
+//@   ensures old(ctx.keep == nil) && next < 0 && has(l.Cov, old(ctx.seq[a].GID)) ==> forall j8 int :: 0 <= j8 && j8 < len(l.Repl[l.Cov[old(ctx.seq[a].GID)]]) ==> !lm(l.Repl[l.Cov[old(ctx.seq[a].GID)]][j8].In, ctx.seq, a, b)
+//@   ensures next >= 0 ==> has(l.Cov, old(ctx.seq[a].GID))
+//@   ensures next < 0 ==> forall q int :: 0 <= q && q < len(ctx.seq) ==> ctx.seq[q] == old(ctx.seq[q])
+//@   let NK = ctx.keep == nil && keep == nil
 //@   modifies ctx.seq, ctx.seq[*], all(nested), allelems(glyph.Info), allelems(int), allelems(rune)
 //@   loop 0
+//@     invariant NK ==> forall j8 int :: 0 <= j8 && j8 < iter ==> !lm(ligSet[j8].In, seq, a, b)
 //@     invariant isnil(skipPos) || isnil(matchPos) || ref(skipPos) != ref(matchPos)
 //@     invariant (isnil(matchPos) || fresh(matchPos)) && (isnil(skipPos) || fresh(skipPos)) && (isnil(text) || fresh(text)) && stackinv(ctx) && inside(ctx, b) && keepOK(ctx) && len(ctx.seq) == old(len(ctx.seq)) && len(ctx.stack) == old(len(ctx.stack)) && (forall k int :: 0 <= k && k < len(ctx.stack) ==> !fresh(ctx.stack[k].InputPos))
 //@     invariant ref(seq) == ref(ctx.seq) && off(seq) == off(ctx.seq) && len(seq) == len(ctx.seq) && ref(seq) == old(ref(ctx.seq))
 //@   loop 1
+//@     invariant NK ==> p == a + 1 + iter && len(skipPos) == 0 && forall i8 int :: 0 <= i8 && i8 < iter ==> seq[a+1+i8].GID == lig.In[i8]
 //@     invariant (isnil(matchPos) || fresh(matchPos)) && (isnil(skipPos) || fresh(skipPos)) && (isnil(text) || fresh(text)) && stackinv(ctx) && inside(ctx, b) && keepOK(ctx) && len(ctx.seq) == old(len(ctx.seq)) && len(ctx.stack) == old(len(ctx.stack)) && (forall k int :: 0 <= k && k < len(ctx.stack) ==> !fresh(ctx.stack[k].InputPos))
 //@     invariant ref(seq) == ref(ctx.seq) && off(seq) == off(ctx.seq) && len(seq) == len(ctx.seq) && ref(seq) == old(ref(ctx.seq))
 //@     invariant isnil(skipPos) || ref(skipPos) != ref(matchPos)
@@ -308,6 +322,7 @@ package gtab
 //@     invariant (forall x int :: 0 <= x && x < len(matchPos) ==> matchPos[x] >= a + x && matchPos[x] < p && matchPos[x] <= matchPos[len(matchPos)-1])
 //@     invariant forall k int :: 0 <= k && k < len(skipPos) ==> a < skipPos[k] && skipPos[k] < p && skipPos[k] >= a + 1 + k
 //@   loop 2
+//@     invariant NK ==> p == a + 1 + outerindex && len(skipPos) == 0
 //@     invariant (isnil(matchPos) || fresh(matchPos)) && (isnil(skipPos) || fresh(skipPos)) && (isnil(text) || fresh(text)) && stackinv(ctx) && inside(ctx, b) && keepOK(ctx) && len(ctx.seq) == old(len(ctx.seq)) && len(ctx.stack) == old(len(ctx.stack)) && (forall k int :: 0 <= k && k < len(ctx.stack) ==> !fresh(ctx.stack[k].InputPos))
 //@     invariant ref(seq) == ref(ctx.seq) && off(seq) == off(ctx.seq) && len(seq) == len(ctx.seq) && ref(seq) == old(ref(ctx.seq))
 //@     invariant isnil(skipPos) || ref(skipPos) != ref(matchPos)
@@ -316,6 +331,7 @@ package gtab
 //@     invariant forall k int :: 0 <= k && k < len(skipPos) ==> a < skipPos[k] && skipPos[k] < p && skipPos[k] >= a + 1 + k
 //@     decreases b - p
 //@   loop 3
+//@     invariant forall q int :: 0 <= q && q <= a ==> seq[q] == pre(seq[q])
 //@     invariant (isnil(matchPos) || fresh(matchPos)) && len(matchPos) >= 1 && stackinv(ctx) && inside(ctx, b) && len(ctx.seq) == old(len(ctx.seq)) && len(ctx.stack) == old(len(ctx.stack)) && (forall k int :: 0 <= k && k < len(ctx.stack) ==> !fresh(ctx.stack[k].InputPos))
 //@     invariant ref(seq) == ref(ctx.seq) && off(seq) == off(ctx.seq) && len(seq) == len(ctx.seq) && ref(seq) == old(ref(ctx.seq))
 //@     invariant a < p && p <= b && len(matchPos) == len(lig.In) + 1 && len(matchPos) + len(skipPos) == p - a && matchPos[0] == a
